@@ -176,7 +176,11 @@ pub fn finish(args: &Args, started: Instant, mut report: Report) -> i32 {
         for e in &report.machinery_errors {
             println!("MACHINERY-ERROR property={} {}", id, e);
         }
-        return 2;
+        // a violation that was found stands on its own (it is a concrete replay of the real code);
+        // machinery errors alone never produce a verdict
+        if new_violations == 0 {
+            return 2;
+        }
     }
     println!(
         "{} property={} tier={} wall={:.1}s new_violations={} known_findings={}",
